@@ -223,15 +223,15 @@ theorem fdtDispatch_err (I : ObjIface σ) (s s' : State σ) (id : Nat) (f : FdtR
           obtain ⟨rfl, _, _⟩ := h; exact hinv
   · exact fdtCompleted_err I s s' id r evs h hinv
 
-theorem fdtEntry_errors (I : ObjIface σ) (s : State σ) (id : Nat) :
-    (fdtEntry I s id).1.errors = s.errors ∧ (fdtEntry I s id).1.cfg = s.cfg := by
+theorem fdtEntry_errors (I : ObjIface σ) (s : State σ) (id : Nat) (p : Pkt) :
+    (fdtEntry I s id p).1.errors = s.errors ∧ (fdtEntry I s id p).1.cfg = s.cfg := by
   unfold fdtEntry
   split <;> simp
 
-theorem pushFdtObj_err (I : ObjIface σ) (s s' : State σ) (p : Pkt) (now : Int) (ans : FdtAns)
-    (r : Res) (evs : List Ev) (h : pushFdtObj I s p now ans = .ok (s', r, evs)) (hinv : ErrInv s) :
+theorem pushFdtObjP_err (I : ObjIface σ) (s s' : State σ) (p : Pkt) (now : Int) (ans : FdtAns)
+    (r : Res) (evs : List Ev) (h : pushFdtObj' I s p now ans = .ok (s', r, evs)) (hinv : ErrInv s) :
     ErrInv s' := by
-  unfold pushFdtObj at h
+  unfold pushFdtObj' at h
   split at h
   · split at h
     · simp only [Except.ok.injEq, Prod.mk.injEq] at h
@@ -240,8 +240,8 @@ theorem pushFdtObj_err (I : ObjIface σ) (s s' : State σ) (p : Pkt) (now : Int)
       · simp only [Except.ok.injEq, Prod.mk.injEq] at h
         obtain ⟨rfl, _, _⟩ := h; exact hinv
   · rename_i id _
-    have he := fdtEntry_errors I s id
-    have hinv1 : ErrInv (fdtEntry I s id).1 := by
+    have he := fdtEntry_errors I s id p
+    have hinv1 : ErrInv (fdtEntry I s id p).1 := by
       unfold ErrInv at hinv ⊢; rw [he.1, he.2]; exact hinv
     split at h
     · simp only [Except.ok.injEq, Prod.mk.injEq] at h
@@ -253,6 +253,13 @@ theorem pushFdtObj_err (I : ObjIface σ) (s s' : State σ) (p : Pkt) (now : Int)
       · split at h
         · cases h
         · exact fdtDispatch_err I _ s' id _ now r evs h hinv1
+
+theorem pushFdtObj_err (I : ObjIface σ) (s s' : State σ) (p : Pkt) (now : Int) (ans : FdtAns)
+    (r : Res) (evs : List Ev) (h : pushFdtObj I s p now ans = .ok (s', r, evs)) (hinv : ErrInv s) :
+    ErrInv s' := by
+  refine pushFdtObjP_err I (dropConflict s p) s' p now ans r evs h ?_
+  have hf := dropConflict_frame s p
+  unfold ErrInv at hinv ⊢; rw [hf.2.2.1, hf.2.2.2.2.1]; exact hinv
 
 theorem removeObjects_err (I : ObjIface σ) (s : State σ) (l : List Nat) (h : ErrInv s) :
     ErrInv (removeObjects I s l).1 := by
@@ -448,15 +455,15 @@ theorem fdtDispatch_cur (I : ObjIface σ) (s s' : State σ) (id : Nat) (f : FdtR
           obtain ⟨rfl, _, _⟩ := h; exact hinv
   · exact fdtCompleted_cur I s s' id r evs h hinv
 
-theorem fdtEntry_cur (I : ObjIface σ) (s : State σ) (id : Nat) :
-    (fdtEntry I s id).1.fdtCurrent = s.fdtCurrent := by
+theorem fdtEntry_cur (I : ObjIface σ) (s : State σ) (id : Nat) (p : Pkt) :
+    (fdtEntry I s id p).1.fdtCurrent = s.fdtCurrent := by
   unfold fdtEntry
   split <;> rfl
 
-theorem pushFdtObj_cur (I : ObjIface σ) (s s' : State σ) (p : Pkt) (now : Int) (ans : FdtAns)
-    (r : Res) (evs : List Ev) (h : pushFdtObj I s p now ans = .ok (s', r, evs)) (hinv : CurInv s) :
+theorem pushFdtObjP_cur (I : ObjIface σ) (s s' : State σ) (p : Pkt) (now : Int) (ans : FdtAns)
+    (r : Res) (evs : List Ev) (h : pushFdtObj' I s p now ans = .ok (s', r, evs)) (hinv : CurInv s) :
     CurInv s' := by
-  unfold pushFdtObj at h
+  unfold pushFdtObj' at h
   split at h
   · split at h
     · simp only [Except.ok.injEq, Prod.mk.injEq] at h
@@ -465,7 +472,7 @@ theorem pushFdtObj_cur (I : ObjIface σ) (s s' : State σ) (p : Pkt) (now : Int)
       · simp only [Except.ok.injEq, Prod.mk.injEq] at h
         obtain ⟨rfl, _, _⟩ := h; exact hinv
   · rename_i id _
-    have hinv1 : CurInv (fdtEntry I s id).1 := by
+    have hinv1 : CurInv (fdtEntry I s id p).1 := by
       unfold CurInv at hinv ⊢; rw [fdtEntry_cur]; exact hinv
     split at h
     · simp only [Except.ok.injEq, Prod.mk.injEq] at h
@@ -477,6 +484,13 @@ theorem pushFdtObj_cur (I : ObjIface σ) (s s' : State σ) (p : Pkt) (now : Int)
       · split at h
         · cases h
         · exact fdtDispatch_cur I _ s' id _ now r evs h hinv1
+
+theorem pushFdtObj_cur (I : ObjIface σ) (s s' : State σ) (p : Pkt) (now : Int) (ans : FdtAns)
+    (r : Res) (evs : List Ev) (h : pushFdtObj I s p now ans = .ok (s', r, evs)) (hinv : CurInv s) :
+    CurInv s' := by
+  refine pushFdtObjP_cur I (dropConflict s p) s' p now ans r evs h ?_
+  have hf := dropConflict_frame s p
+  unfold CurInv at hinv ⊢; rw [hf.2.2.2.1]; exact hinv
 
 /-- one call preserves `|fdt_current| ≤ 10` -/
 theorem step_cur (I : ObjIface σ) (s s' : State σ) (op : Op) (r : Res) (evs : List Ev)
